@@ -408,8 +408,37 @@ class PrintfHex(Rule):
     def apply(self, text, where=''):
         def rep(mo):
             pre, w, ln, up = parse_format(mo.group(1), where)
-            return 'C04_printf_hex(ret, %s, %d, %s, %d, %s);' % (pre, w, ln, up, mo.group(2))
+            pushes = ' '.join('vstr_push_back(ret, %s);' % c for c in c_chars(pre, where))
+            return '%s C04_printf_hex(ret, %d, %s, %d, %s);' % (pushes, w, ln, up, mo.group(2))
         return re.sub(r'\bret \+= string_printf\((' + LIT + r'), (\w+)\);', rep, text)
+
+
+def c_chars(lit, where):
+    """characters of a C string literal (source text with quotes) as C character literals"""
+    out = []
+    i = 1
+    while i < len(lit) - 1:
+        if lit[i] == '\\':
+            mo = re.match(r'\\(x[0-9A-Fa-f]{1,2}|[0-7]{1,3}|.)', lit[i:])
+            out.append("'%s'" % mo.group(0))
+            i += len(mo.group(0))
+        else:
+            out.append("'%s'" % ("\\'" if lit[i] == "'" else lit[i]))
+            i += 1
+    return out
+
+
+class AppendLit(Rule):
+    """ret += "literal";  ->  one vstr_push_back per character of the literal"""
+
+    def __init__(self):
+        self.pat, self.count = 'ret += literal', None
+
+    def apply(self, text, where=''):
+        new, n = re.subn(r'\bret \+= (' + LIT + r');', lambda mo: ' '.join('vstr_push_back(ret, %s);' % c for c in c_chars(mo.group(1), where)), text)
+        if n < 1:
+            raise ExtractionBreak('%s: no `ret += "literal"` statement' % where)
+        return new
 
 
 OPT_RULES = [Rule(r'\bSerializeOption::', 'SerializeOption_', regex=True), Rule(r'\bStringEscapeMode::', 'StringEscapeMode_', regex=True),
@@ -488,24 +517,47 @@ def serialize_units(ctx, src):
     return u, cases
 
 
+class LoopBodyToCall(Rule):
+    """for (auto ch : s) BODY  ->  for (index loop) { char ch = s[i]; <ghost>; JSON_escape_char(ret, ch, mode); }
+    BODY is emitted as the function JSON_escape_char(ret, ch, mode) from the same source slice (Unit.block); the split is valid
+    when BODY mentions no other local of the enclosing function (compile gate of JSON_escape_char) and does not leave the loop."""
+
+    def __init__(self):
+        self.pat, self.count = 'range-for body -> call', None
+
+    def apply(self, text, where=''):
+        m = lex.mask(text)
+        ms = list(re.finditer(r'\bfor \(auto ch : s\)\s*', m))
+        if len(ms) != 1:
+            raise ExtractionBreak('%s: expected one `for (auto ch : s)` loop' % where)
+        b = ms[0].end()
+        if m[b] != '{':
+            raise ExtractionBreak('%s: loop without braces' % where)
+        be = lex.match_close(m, b)
+        if re.search(r'\b(return|break|continue|goto)\b', m[b:be]):
+            raise ExtractionBreak('%s: the loop body leaves the loop' % where)
+        return (text[:ms[0].start()] + 'for (size_t verif_i = 0; verif_i < vstr_size(s); verif_i++) '
+                '{ char ch = s->data[verif_i]; C04_ESCAPE_GHOST; JSON_escape_char(ret, ch, mode); }' + text[be + 1:])
+
+
 def escape_units(ctx, src, u):
-    """JSON::escape_string: the whole function (loop contract: contracts/C04_string.h) and the body of its loop for one character"""
-    rules = OPT_RULES[1:2] + [
-        Rule(r'\bstring ret;', '', regex=True, count=1),
-        Rule(r'\bfor \(auto ch : s\) \{', 'for (size_t verif_i = 0; verif_i < vstr_size(s); verif_i++) { char ch = s->data[verif_i]; C04_ESCAPE_GHOST;', regex=True, count=1),
-        PrintfHex(),
-        Rule(r'\bret \+= (' + LIT + r');', r'C04_append_lit(ret, \1);', regex=True, count='+'),
-        Rule(r'\bret \+= ch;', 'vstr_push_back(ret, ch);', regex=True, count='+'),
-        Rule(r'\breturn ret;', 'C04_ESCAPE_END; return;', regex=True, count=1)]
-    u.function(src, CC, ESCAPE, new_header='void JSON_escape_string(vstr* ret, const vstr* s, int mode)', rules=rules,
+    """JSON::escape_string: the body of its loop for one character (JSON_escape_char, own contract) and the function with the
+    loop body replaced by a call of that block (loop contract: contracts/C04_string.h)"""
+    body_rules = [OPT_RULES[1], PrintfHex(),
+                  AppendLit(),
+                  Rule(r'\bret \+= ch;', 'vstr_push_back(ret, ch);', regex=True, count='+')]
+    u.block(src, CC, ESCAPE, r'for \(auto ch : s\)', new_header='void JSON_escape_char(vstr* ret, char ch, int mode)',
+            rules=body_rules + [Rule(r'\A\{', '{ C04_CHAR_GHOST;', regex=True, count=1)])
+    u.function(src, CC, ESCAPE, new_header='void JSON_escape_string(vstr* ret, const vstr* s, int mode)',
+               rules=[Rule(r'\bstring ret;', 'C04_ESCAPE_INIT;', regex=True, count=1), LoopBodyToCall(),
+                      Rule(r'\breturn ret;', 'C04_ESCAPE_END; return;', regex=True, count=1)],
                loops={1: ESCAPE_LOOP}, nloops=1)
-    u.block(src, CC, ESCAPE, r'for \(auto ch : s\)', new_header='void JSON_escape_char(vstr* ret, char ch, int mode)', rules=rules[:1] + rules[3:6])
     if MODES != ['STANDARD', 'HEX', 'CONTROL_ONLY']:
         raise ExtractionBreak('spec/C04_escape.h numbers the modes STANDARD, HEX, CONTROL_ONLY')
 
 
 ESCAPE_LOOP = """
-__CPROVER_assigns(verif_i, ret->size, __CPROVER_object_whole(ret->data), C04_ESCAPE_GHOSTS)
+__CPROVER_assigns(verif_i, ret->size, __CPROVER_object_from(ret->data + g_base), C04_ESCAPE_GHOSTS)
 __CPROVER_loop_invariant(C04_ESCAPE_LOOP_INV(ret, s, verif_i))
 __CPROVER_decreases(s->size - verif_i)
 """
@@ -546,8 +598,10 @@ def plan(ctx):
     HT = 'harness/C04/strings.c'
     groups.append(Group(name='JSON.string.char_lemma', harness=HT, entry='h_char_lemma', function='JSON::escape_string loop body / JSON::parse string loop body',
                         defines=list(D), kind='loop-free', min_post=8, replay=RP('char_roundtrip')))
+    groups.append(Group(name='JSON.escape_string.body', harness=HT, entry='h_escape_char', function='JSON::escape_string (loop body, one character)',
+                        enforce='JSON_escape_char', defines=list(D), kind='loop-free', min_post=2, timeout=300, replay=RP('char_roundtrip')))
     groups.append(Group(name='JSON.escape_string', harness=HT, entry='h_escape_string', function='JSON::escape_string', enforce='JSON_escape_string',
-                        loops=True, defines=list(D), kind='loop-contract', min_post=5, timeout=600, stage1=30,
+                        replace=['JSON_escape_char'], loops=True, defines=list(D), kind='loop-contract', min_post=5, timeout=600, stage1=30,
                         replay=RP('string_roundtrip', small_define='VERIF_SMALL'), fallback_unwind=10))
     groups.append(Group(name='JSON.string.induction_step', harness=HT, entry='l_string_step', function='JSON::escape_string (contract) / JSON::parse string loop body',
                         replace=['JSON_escape_string'], defines=list(D), kind='lemma', min_post=5, timeout=300))
